@@ -584,3 +584,130 @@ def iff_repeat_variants(data, repeats=8192, max_ids=12):
             out.append(("%s-z%d-tail" % (safe, size), data + rep))
             out.append(("%s-z%d-head" % (safe, size), data[:first_end] + rep + data[first_end:]))
     return out
+
+
+def mmcmp_empty_subblock_bomb(nblocks=65535, nsubs=65535):
+    """MMCMP whose block-table entries all name one stored block made of `nsubs` EMPTY sub-blocks: nothing is written, so the
+    total-output budget is never used up, but every table entry re-reads the whole sub-block table (nblocks x nsubs reads)"""
+    blk = struct.pack("<IIIHHHH", 16, 16, 0, nsubs, 0, 0, 0) + struct.pack("<II", 0, 0) * nsubs + bytes(16)
+    blk_ofs = 24
+    table_ofs = blk_ofs + len(blk)
+    hdr = b"ziRCONia" + struct.pack("<HHHIIBB", 14, 0x1300, nblocks, 16, table_ofs, 0, 0)
+    return hdr + blk + struct.pack("<I", blk_ofs) * nblocks
+
+
+# --------------------------------------------------------------------------
+# XM with OpenMPT-style extension blocks behind the sample data (every id xm_load.c knows), honest sizes: the field sweep
+# then reaches each block's size field.
+# --------------------------------------------------------------------------
+
+def xm_with_extensions(rng):
+    base = tiny_xm([0, 0], 0, npat=1, rows=4)
+    blocks = [(b"text", b"a song comment\rsecond line"), (b"MIDI", bytes(32)), (b"PNAM", b"pattern zero".ljust(32, b"\0")),
+              (b"CNAM", b"chn".ljust(20, b"\0") * 2), (b"CHFX", bytes(8)), (b"FX00", bytes(16))]
+    rng.shuffle(blocks)
+    blocks.append((b"XTPM", bytes(12)))         # instrument extensions end the block list
+    out = base
+    for cid, body in blocks:
+        out += cid + struct.pack("<I", len(body)) + body
+    return out, "xm"
+
+
+# --------------------------------------------------------------------------
+# A module packed k times over in each container that can store data cheaply (k-fold nesting).  The library unpacks one
+# level: for k >= 2 what comes out is an archive, not a module.
+# --------------------------------------------------------------------------
+
+def nested_set(depths=(1, 2, 3, 10, 100, 1000)):
+    import zlib
+    import c08_writers as w
+    inner = tiny_mod([0], 0)
+
+    def gz(p):
+        co = zlib.compressobj(0, zlib.DEFLATED, 31)
+        return co.compress(p) + co.flush()
+
+    wrappers = [("mmcmp", lambda p: w.mmcmp_stored(p, block_size=1 << 30)),
+                ("gz", gz),
+                ("zip", lambda p: w.zip_archive([("m.mod", p, "stored")], method="stored")),
+                ("lha", lambda p: w.lha_archive([("m.mod", p)], level=0)),
+                ("arc", lambda p: w.arc_archive([("M.MOD", p, 2)]))]
+    out = []
+    for ext, fn in wrappers:
+        data, k = inner, 0
+        for d in sorted(depths):
+            try:
+                while k < d:
+                    data = fn(data)
+                    k += 1
+            except Exception:
+                break
+            if len(data) > (8 << 20):
+                break
+            out.append(("nested-%s-x%d.%s" % (ext, d, ext), data, d))
+    return out
+
+
+# --------------------------------------------------------------------------
+# Hostile LZW code streams for every LZW width variant (ARC crunch 12 bits, squash 13 bits, Spark / ArcFS compress with a
+# maxbits byte of 12 / 13 / 16, compress(1) 9..16 bits): short sequences of 9-bit codes (no width change below ~250 codes)
+# that use entries not defined yet, the entry being defined (KwKwK) right after a CLEAR, and codes far above the table —
+# the sequences in which a string-table entry can become its own prefix.
+# --------------------------------------------------------------------------
+
+def pack9(codes):
+    acc = n = 0
+    out = bytearray()
+    for c in codes:
+        acc |= (c & 0x1ff) << n
+        n += 9
+        while n >= 8:
+            out.append(acc & 0xff)
+            acc >>= 8
+            n -= 8
+    if n:
+        out.append(acc & 0xff)
+    return bytes(out)
+
+
+def hostile_lzw_sequences(rng, count=24):
+    seqs = []
+    for b in (257, 258, 259):
+        for c in (259, 300, 511):
+            for d in (257, 258, 259):
+                seqs.append([65, b, c, d] + [d] * 6)
+                seqs.append([65, 66, b, 256, c, d, b])
+    for _ in range(count):
+        free, s = 257, [rng.randrange(256)]
+        for _ in range(rng.randrange(3, 200)):
+            r = rng.random()
+            if r < 0.35:
+                c = rng.randrange(256)
+            elif r < 0.45:
+                c = 256
+            elif r < 0.8:
+                c = max(257, min(511, free + rng.choice([-3, -2, -1, 0, 0, 1, 2, 5, 40])))
+            else:
+                c = rng.choice([257, 258, 300, 510, 511])
+            s.append(c)
+            free = 257 if c == 256 else min(free + 1, 511)
+        seqs.append(s)
+    return seqs
+
+
+def hostile_lzw_set(rng):
+    """(name, bytes): the sequences above in every container / width variant"""
+    import c08_writers as w
+    out = []
+    fake = bytes(4096)
+    for i, seq in enumerate(hostile_lzw_sequences(rng)):
+        codes = pack9(seq) + bytes(4)
+        out.append(("lzw%03d-crunch12.arc" % i, w.arc_archive([("A.MOD", fake, 8, bytes([12]) + codes)])))
+        out.append(("lzw%03d-squash13.arc" % i, w.arc_archive([("A.MOD", fake, 9, codes)])))
+        for mb in (12, 13, 16):
+            out.append(("lzw%03d-spark%d.arc" % (i, mb), w.arc_archive([("A.MOD", fake, 0x7f, bytes([mb]) + codes)], spark=True)))
+            out.append(("lzw%03d-arcfs%d.arcfs" % (i, mb), w.arcfs_archive([("a.mod", fake, 0xff, codes, mb)])))
+        out.append(("lzw%03d-arcfs-crunch.arcfs" % i, w.arcfs_archive([("a.mod", fake, 0x88, codes, 12)])))
+        for mb in (9, 12, 16):
+            out.append(("lzw%03d-z%d.Z" % (i, mb), bytes([0x1f, 0x9d, 0x80 | mb]) + codes))
+    return out
